@@ -15,6 +15,55 @@ import (
 
 const BinaryMessage = 2
 const TextMessage = 1
+const CloseMessage = 8
+const PingMessage = 9
+const PongMessage = 10
+
+// close codes (RFC 6455, as in gorilla/websocket)
+const (
+	CloseNormalClosure           = 1000
+	CloseGoingAway               = 1001
+	CloseProtocolError           = 1002
+	CloseUnsupportedData         = 1003
+	CloseNoStatusReceived        = 1005
+	CloseAbnormalClosure         = 1006
+	CloseInvalidFramePayloadData = 1007
+	ClosePolicyViolation         = 1008
+	CloseMessageTooBig           = 1009
+	CloseInternalServerErr       = 1011
+)
+
+// FormatCloseMessage formats a close message payload as gorilla does.
+func FormatCloseMessage(closeCode int, text string) []byte {
+	if closeCode == CloseNoStatusReceived {
+		return []byte{}
+	}
+	return append([]byte{byte(closeCode >> 8), byte(closeCode)}, text...)
+}
+
+// IsCloseError / IsUnexpectedCloseError as in gorilla.
+func IsCloseError(err error, codes ...int) bool {
+	if e, ok := err.(*CloseError); ok {
+		for _, c := range codes {
+			if e.Code == c {
+				return true
+			}
+		}
+	}
+	return false
+}
+
+func IsUnexpectedCloseError(err error, expected ...int) bool {
+	if e, ok := err.(*CloseError); ok {
+		for _, c := range expected {
+			if e.Code == c {
+				return false
+			}
+		}
+		return true
+	}
+	return false
+}
 
 var ErrReadLimit = errors.New("websocket: read limit exceeded")
 var ErrCloseSent = errors.New("websocket: close sent")
@@ -50,10 +99,18 @@ type Conn struct {
 	FailNextReader int
 	FailDeadline   int
 	FailClose      int
+
+	Controls [][]byte // control frames written with WriteControl (gorilla allows them concurrently with everything else)
+	// Block: completing a data message blocks (the peer does not read, the socket buffer is full) until the
+	// connection is closed or Unblock is called
+	Block     bool
+	release   chan struct{}
+	released  bool
+	WriteDeadlines []time.Time
 }
 
 func New(capacity int) *Conn {
-	return &Conn{in: make(chan Msg, capacity), closedCh: make(chan struct{}), expired: make(chan struct{})}
+	return &Conn{in: make(chan Msg, capacity), closedCh: make(chan struct{}), expired: make(chan struct{}), release: make(chan struct{})}
 }
 
 // Feed queues an incoming binary message.
@@ -149,7 +206,59 @@ func (w *wr) Close() error {
 	if w.c.closed {
 		return ErrCloseSent
 	}
+	if w.c.Block {
+		select {
+		case <-w.c.release:
+		case <-w.c.closedCh:
+			return ErrCloseSent
+		}
+	}
 	w.c.Out = append(w.c.Out, w.b)
+	return nil
+}
+
+// Unblock lets blocked writes proceed.
+func (c *Conn) Unblock() {
+	c.Block = false
+	if !c.released {
+		c.released = true
+		close(c.release)
+	}
+}
+
+// WriteControl writes a control frame; as in gorilla it may be called concurrently with the other methods.
+func (c *Conn) WriteControl(messageType int, data []byte, deadline time.Time) error {
+	if c.closed {
+		return ErrCloseSent
+	}
+	c.Controls = append(c.Controls, append([]byte{byte(messageType)}, data...))
+	return nil
+}
+
+// WriteMessage writes a whole message (NextWriter + Write + Close).
+func (c *Conn) WriteMessage(messageType int, data []byte) error {
+	w, err := c.NextWriter(messageType)
+	if err != nil {
+		return err
+	}
+	if _, err := w.Write(data); err != nil {
+		return err
+	}
+	return w.Close()
+}
+
+// ReadMessage reads a whole message (NextReader + ReadAll).
+func (c *Conn) ReadMessage() (int, []byte, error) {
+	t, r, err := c.NextReader()
+	if err != nil {
+		return t, nil, err
+	}
+	b, err := io.ReadAll(r)
+	return t, b, err
+}
+
+func (c *Conn) SetWriteDeadline(t time.Time) error {
+	c.WriteDeadlines = append(c.WriteDeadlines, t)
 	return nil
 }
 
